@@ -90,3 +90,17 @@ void F___cxa_guard_release(unsigned long *g) { *(unsigned char *) g = 1; }
 unsigned int F___cxa_atexit(void *f, void *a, void *d) { return 0; }
 unsigned char g___dso_handle;
 unsigned char *g__ZTISt9bad_alloc, *g__ZTISt9exception, *g__ZTISt12out_of_range, *g__ZTISt12system_error, *g__ZTISt12domain_error, *g__ZTISt11range_error, *g__ZTISt20bad_array_new_length;
+
+void *F__Znam(unsigned long n) { void *p = malloc(n ? n : 1); RT_ASSUME(p != 0); return p; }
+void F__ZdaPv(void *p) { free(p); }
+/* log2 for the Elias-Fano low-width heuristic round(max(log2(u*ln2/m),1)): 16 fractional bits by repeated squaring */
+double F_log2(double x) {
+  if (!(x > 0)) return -1e300;
+  int e = 0;
+  for (int i = 0; i < 70 && x >= 2; i++) { x /= 2; e++; }
+  for (int i = 0; i < 70 && x < 1; i++) { x *= 2; e--; }
+  double r = 0, f = 0.5;
+  for (int i = 0; i < 16; i++) { x = x * x; if (x >= 2) { x /= 2; r += f; } f /= 2; }
+  return e + r;
+}
+double F_log(double x) { return F_log2(x) * 0.6931471805599453; }
